@@ -2,3 +2,5 @@ import UberjobModel.Props.C17
 #print axioms Uberjob.Engine.C17_no_new
 #print axioms Uberjob.Engine.C17_no_new_ever
 #print axioms Uberjob.Engine.C17_inflight
+#print axioms Uberjob.Engine.C17_interrupt_wakes
+#print axioms Uberjob.Engine.C17_interrupted_stays
